@@ -17,19 +17,38 @@ def gen(rng, k):
             if a not in used:
                 used.add(a)
                 return a
-    req_has_addr = rng.random() < 0.8
+    kind = rng.choice(['has', 'has', 'has', 'has', 'none', 'cannot'])
+    req_has_addr = kind == 'has'
     ra = addr()
-    stacks = [dict(dll='j1939-21', max_cmdt=1, subs=[], cas=[dict(name=gen_ca.mk_name(rng, True), addr=ra, bypass=req_has_addr, subs=[1], req=[2])])]
     meta = []
     cid = 10
     script = []
+    if kind == 'cannot':
+        # the requester is a fixed-address CA that has LOST its address to a lower NAME: it may still request the address-claim PGN
+        low = gen_ca.mk_name(rng, False) & ((1 << 40) - 1)
+        high = (gen_ca.mk_name(rng, False) | (1 << 62)) & ~(1 << 63)
+        stacks = [dict(dll='j1939-21', max_cmdt=1, subs=[], cas=[dict(name=high, addr=ra, bypass=False, subs=[1], req=[2])])]
+        script.append(dict(t=1000, s=0, op='ca_start', ca=0, delay=0))
+    else:
+        stacks = [dict(dll='j1939-21', max_cmdt=1, subs=[], cas=[dict(name=gen_ca.mk_name(rng, True), addr=ra, bypass=req_has_addr, subs=[1], req=[2])])]
+    first = True
     for s in range(1, rng.choice([2, 2, 3])):
         cas = []
         for j in range(rng.randint(1, 3)):
             phase = rng.choice(['normal', 'normal', 'normal', 'none', 'wait'])
             a = addr() if phase != 'wait' else rng.choice(gen_ca.VETO[:60])
+            if first and kind == 'cannot':
+                # the CA that keeps the requester's address (lower NAME, operational from the start)
+                phase, a = 'normal', ra
+            elif phase == 'normal' and 0 not in used and rng.random() < 0.3:
+                a = 0                                   # address 0 is an address like any other
+                used.add(0)
+            first = False
             reqs = [cid + 1 + x for x in range(rng.randint(1, 2))]
-            cas.append(dict(name=gen_ca.mk_name(rng, rng.random() < 0.5), addr=a, bypass=(phase == 'normal'), subs=[cid], req=reqs))
+            nm = gen_ca.mk_name(rng, rng.random() < 0.5)
+            if kind == 'cannot' and a == ra:
+                nm = low
+            cas.append(dict(name=nm, addr=a, bypass=(phase == 'normal'), subs=[cid], req=reqs))
             meta.append(dict(stack=s, ca=j, phase=phase, addr=a, reqs=reqs, name=cas[-1]['name'] & ~(1 << 48)))
             cid += 10
             if phase == 'wait':
